@@ -30,9 +30,9 @@ theorem GrowOutcome.capPost {E : Env} {s : GS} {c a : Nat} {x : Except Panic Uni
     exact ⟨hf, fun p hp => by simp at hp, by simp, fun _ => .inl rfl⟩
   | rejected p h1 h2 =>
     exact ⟨hf, fun _ _ => GS.sameHdr_refl s, by simpa using h2, fun hp => by simp at hp⟩
-  | allocFailed req L hL hreq =>
+  | allocFailed req L hL hreq hk =>
     exact ⟨hf, fun _ _ => GS.refused_sameHdr s req, by simp, fun hp => by simp at hp⟩
-  | grown req L hL hlen hreq hr =>
+  | grown req L hL hlen hreq hk hr =>
     exact ⟨rfl, fun p hp => by simp at hp, by simp, fun _ => .inr ⟨c, a, req, L, hL, hreq, hlen, rfl⟩⟩
 
 theorem grow_capPost (E : Env) (s : GS) (c a : Nat) (hf : s.fresh = none) :
@@ -108,6 +108,6 @@ theorem grow_ok_figures (E : Env) (s s' : GS) (c a : Nat) (hf : s.fresh = none)
   rw [h] at hc
   cases hc with
   | noop h1 h2 => exact ⟨h1.symm, rfl, h2.symm⟩
-  | grown req L hL hlen hreq hr => exact ⟨grown_C .., grown_L .., grown_A ..⟩
+  | grown req L hL hlen hreq hk hr => exact ⟨grown_C .., grown_L .., grown_A ..⟩
 
 end MV.Gen
